@@ -337,16 +337,21 @@ pub(in crate::sql) fn except(
         let top = ctx.anchor.determine_select_columns(&res[0..res.len() - 2]);
         let bottom = with.table_ref.columns.iter().map(|(_, c)| *c).collect_vec();
 
-        // join_cond must be a join over all columns
+        // join_cond must be a join over all columns, each compared with the column at the same
+        // position of bottom, because that is how EXCEPT matches its operands
         // (this could be loosened to check only the relation key)
-        let (join_left, join_right) = collect_equals(join_cond)?;
-        if !all_in(&top, join_left) || !all_in(&bottom, join_right) {
+        let Some((join_left, join_right)) = collect_equals(join_cond) else {
+            continue;
+        };
+        if !equal_by_position(&top, &bottom, &join_left, &join_right) {
             continue;
         }
 
         // filter has to check for nullability of bottom
         // (this could be loosened to check only for nulls in a previously non-nullable column)
-        let (filter_left, filter_right) = collect_equals(filter)?;
+        let Some((filter_left, filter_right)) = collect_equals(filter) else {
+            continue;
+        };
         if !(all_in(&bottom, filter_left) && all_null(filter_right)) {
             continue;
         }
@@ -427,10 +432,13 @@ pub(in crate::sql) fn intersect(
         let bottom = with.table_ref.columns.iter().map(|(_, c)| *c).collect_vec();
         let top = ctx.anchor.determine_select_columns(&res[0..res.len() - 1]);
 
-        // join_cond must be a join over all columns
+        // join_cond must be a join over all columns, each compared with the column at the same
+        // position of bottom, because that is how INTERSECT matches its operands
         // (this could be loosened to check only the relation key)
-        let (left, right) = collect_equals(join_cond)?;
-        if !(all_in(&top, left) && all_in(&bottom, right)) {
+        let Some((left, right)) = collect_equals(join_cond) else {
+            continue;
+        };
+        if !equal_by_position(&top, &bottom, &left, &right) {
             continue;
         }
 
@@ -504,9 +512,36 @@ fn all_null(exprs: Vec<&Expr>) -> bool {
         .all(|e| matches!(e.kind, ExprKind::Literal(Literal::Null)))
 }
 
+/// Returns true if the equalities `lefts[i] == rights[i]` compare every column of `top` with the
+/// column of `bottom` at the same position, and nothing else.
+fn equal_by_position(top: &[CId], bottom: &[CId], lefts: &[&Expr], rights: &[&Expr]) -> bool {
+    if top.len() != bottom.len() || lefts.len() != rights.len() {
+        return false;
+    }
+    let mut compared = vec![false; top.len()];
+    for i in 0..lefts.len() {
+        let (left, right) = match (
+            lefts[i].kind.as_column_ref(),
+            rights[i].kind.as_column_ref(),
+        ) {
+            (Some(left), Some(right)) => (left, right),
+            _ => return false,
+        };
+        let Some(position) = top.iter().position(|c| c == left) else {
+            return false;
+        };
+        if bottom[position] != *right {
+            return false;
+        }
+        compared[position] = true;
+    }
+    compared.into_iter().all(|c| c)
+}
+
 /// Converts `(a == b) and ((c == d) and (e == f))`
-/// into `([a, c, e], [b, d, f])`
-fn collect_equals(expr: &Expr) -> Result<(Vec<&Expr>, Vec<&Expr>)> {
+/// into `([a, c, e], [b, d, f])`.
+/// Returns None if the expression is anything but equalities joined by `and`.
+fn collect_equals(expr: &Expr) -> Option<(Vec<&Expr>, Vec<&Expr>)> {
     let mut lefts = Vec::new();
     let mut rights = Vec::new();
 
@@ -524,10 +559,10 @@ fn collect_equals(expr: &Expr) -> Result<(Vec<&Expr>, Vec<&Expr>)> {
             lefts.extend(l);
             rights.extend(r);
         }
-        _ => (),
+        _ => return None,
     }
 
-    Ok((lefts, rights))
+    Some((lefts, rights))
 }
 
 fn col_refs(exprs: Vec<&Expr>) -> Vec<CId> {
